@@ -321,7 +321,8 @@ func driverMain() {
 	sum := vhlib.NewSummary("one case = one crash point: the file-system state after the first k completed system calls of a traced ingest/flush/rotate history (strace of the real worker, replayed into a fresh directory at the same path), followed by a real restart + `*` + `stats count` + further ingest; " +
 		"after every restart also a filter query (`w=w<r>`: exactly the visible events that match); every third history is a persistent-query history (the filter asked on the empty index before the first event: every flush appends the block's match bits to <segkey>/pqmr/<pqid>.pqmr, consecutive blocks of a segment have different match sets; in every crash state each pqmr file is read by the real ReadPqmr and compared with what the traced writer had appended, and the query's per-block answer with the searcher model); " +
 		"histories end with an open segment, a rotation or a graceful shutdown (ForcedFlushToSegfile with 0..n events in the buffer: buffer flush + rotation in one call; the RotateSegment hook of siglens marks the return of the buffer flush); " +
-		"quick: stratified sample of k (every protocol token boundary of sfm/bsu/sst/segmeta + random; every call boundary from the return of the shutdown's buffer flush to the rename of the final .sfm; persistent-query history: every boundary of the pqmr appends + 7 others), thorough: every k; non-trivial = at least one flush had started; distinct by (history, k)")
+		"quick: stratified sample of k (every protocol token boundary of sfm/bsu/sst/segmeta + random; every call boundary from the return of the shutdown's buffer flush to the rename of the final .sfm; persistent-query history: every boundary of the pqmr appends + 7 others), thorough: every k; non-trivial = at least one flush had started; distinct by (history, k); " +
+		"metadata-rewrite stream: a traced worker rotates segments of two indexes and runs a real rewrite of segmeta.json (retention cleaner; thorough: also the delete-index handler and AddOrReplaceRotatedSegmeta); crash states = call boundaries of its calls on segmeta.json(.tmp) + short writes on the temporary file; each is replayed, the real server restarts, runs a second real rewrite to its end, segmeta.json is read (bytes + the real reader), the server restarts again and is queried")
 	r := vhlib.NewRng(cfg.Seed)
 	self, _ := os.Executable()
 	nh := 3
@@ -329,6 +330,14 @@ func driverMain() {
 		nh = 5
 	}
 	caseShard := 0
+	// the segmeta.json rewrite stream (meta.go) has its own directories and workers: it runs beside the histories
+	metaDone := make(chan struct{})
+	go func() {
+		defer close(metaDone)
+		if v := os.Getenv("C07_ONLY_H"); v == "" || v == "meta" {
+			metaStream(cfg, sum, self)
+		}
+	}()
 	for hi := 0; hi < nh; hi++ {
 		// quick: h0 = segment whose ONLY flush is the shutdown flush, h1 = shutdown flush after earlier flushes of the segment
 		h := genHistory(r.Fork(), hi == 1)
@@ -550,6 +559,7 @@ func driverMain() {
 		}
 		_ = os.RemoveAll(run1)
 	}
+	<-metaDone
 	sum.Write(cfg.Out)
 }
 
